@@ -28,11 +28,12 @@ pub fn eval(scene: &Scene) -> Result<(u64, u64, bool), Violation> {
     let (w, h) = (scene.w, scene.h);
     // image parameters + coverage of the shape
     let (iw, ih, data, repeat, bilinear, sxf, alpha, cov) = match &draw {
-        Op::Fill(p, SrcSpec::Image { w: iw, h: ih, data, repeat, bilinear, xf }, o) => (*iw, *ih, data.clone(), *repeat, *bilinear, *xf, o.alpha, ref_cov_path(w, h, &ctm, p, o.aa)),
-        Op::DrawImageAt(x, y, iw, ih, data, o) => (*iw, *ih, data.clone(), false, true, [1., 0., 0., 1., -*x, -*y], o.alpha, ref_cov_path(w, h, &ctm, &PathSpec::rect(*x, *y, *iw as f32, *ih as f32), o.aa)),
+        Op::Fill(p, SrcSpec::Image { w: iw, h: ih, data, repeat, bilinear, xf }, o) => (*iw, *ih, data.clone(), *repeat, *bilinear, *xf, o.alpha, cov_dev(w, h, &ctm, p, o.aa)),
+        Op::FillRect(x, y, rw, rh, SrcSpec::Image { w: iw, h: ih, data, repeat, bilinear, xf }, o) => (*iw, *ih, data.clone(), *repeat, *bilinear, *xf, o.alpha, cov_dev(w, h, &ctm, &PathSpec::rect(*x, *y, *rw, *rh), o.aa)),
+        Op::DrawImageAt(x, y, iw, ih, data, o) => (*iw, *ih, data.clone(), false, true, [1., 0., 0., 1., -*x, -*y], o.alpha, cov_dev(w, h, &ctm, &PathSpec::rect(*x, *y, *iw as f32, *ih as f32), o.aa)),
         Op::DrawImageSize(sw, sh, x, y, iw, ih, data, o) => {
             let t = raqote::Transform::translation(-*x, -*y).then_scale(*iw as f32 / *sw, *ih as f32 / *sh);
-            (*iw, *ih, data.clone(), false, true, xf_from(&t), o.alpha, ref_cov_path(w, h, &ctm, &PathSpec::rect(*x, *y, *sw, *sh), o.aa))
+            (*iw, *ih, data.clone(), false, true, xf_from(&t), o.alpha, cov_dev(w, h, &ctm, &PathSpec::rect(*x, *y, *sw, *sh), o.aa))
         }
         _ => return Err(Violation::new("harness/unsupported-draw", case, "".to_string())),
     };
@@ -81,6 +82,13 @@ pub fn eval(scene: &Scene) -> Result<(u64, u64, bool), Violation> {
         }
     }
     Ok((hash64(&got), checked, interp))
+}
+
+/// shape coverage from the path mapped to device space first and filled under the identity (the
+/// image of the user-space shape; independent of how a draw call treats the current transform)
+fn cov_dev(w: i32, h: i32, ctm: &Xf, p: &PathSpec, aa: bool) -> Result<Vec<u8>, String> {
+    let pre = guard(|| super::c11::spec_from_path(&p.build().transform(&xf_to(ctm))))?;
+    ref_cov_path(w, h, &IDENT, &pre, aa)
 }
 
 fn ctms() -> Vec<Xf> {
@@ -244,9 +252,12 @@ impl Check for C13 {
                 (vec![Op::PushClipRect(2, 1, w, h), Op::PushLayer(1.0, BlendMode::SrcOver), Op::PushClip(cover.clone())], vec![Op::PopClip, Op::PopLayer, Op::PopClip]),
                 (vec![Op::PushClipRect(3, 2, w - 1, h), Op::PushLayer(1.0, BlendMode::SrcOver), Op::PopClip, Op::PushClip(cover.clone())], vec![Op::PopClip, Op::PopLayer]),
                 (vec![Op::PushClip(cover.clone())], vec![Op::PopClip]),
+                // the clip that placed the layer is popped again: an offset layer with an empty clip stack
+                (vec![Op::PushClipRect(3, 2, w - 1, h), Op::PushLayer(1.0, BlendMode::SrcOver), Op::PopClip], vec![Op::PopLayer]),
+                (vec![Op::PushClipRect(1, 1, w, h), Op::PushLayer(1.0, BlendMode::SrcOver), Op::PushClipRect(2, 2, w, h), Op::PushLayer(1.0, BlendMode::SrcOver), Op::PopClip, Op::PopClip], vec![Op::PopLayer, Op::PopLayer]),
             ];
             let sxs: Vec<Xf> = vec![IDENT, [1., 0., 0., 1., -2., 1.], [1., 0., 0., 1., 0.5, 0.25], [0.5, 0., 0., 0.5, 0., 0.], [0.8660254, 0.5, -0.5, 0.8660254, 0.3, 0.7]];
-            run.bound("offset layers and clip paths", format!("{} contexts x 2 images x pad/repeat x nearest/bilinear x {} source transforms x 2 alphas, SrcOver over a transparent {}x{} surface", ctxs.len(), sxs.len(), w, h));
+            run.bound("offset layers and clip paths", format!("{} contexts x 2 images x pad/repeat x nearest/bilinear x {} source transforms x 2 alphas x (covering path, fill_rect of the whole surface / of a part, draw_image_at), SrcOver over a transparent {}x{} surface", ctxs.len(), sxs.len(), w, h));
             run.par(ctxs.len() * sxs.len(), |s, l| {
                 let (pre, suf) = &ctxs[s / sxs.len()];
                 let t = sxs[s % sxs.len()];
@@ -256,8 +267,17 @@ impl Check for C13 {
                         for bilinear in [false, true] {
                             for alpha in [1.0f32, 0.5] {
                                 let src = SrcSpec::Image { w: iw, h: ih, data: data.clone(), repeat, bilinear, xf: t };
+                                // the covering path, and the calls that may take the shortcut for
+                                // pixel-aligned rectangles (whole surface, a part, draw_image_at)
+                                let o = Opts { mode: BlendMode::SrcOver, alpha, aa: true };
+                                let mut draws = vec![Op::Fill(PathSpec::rect(-60., -60., 120., 120.), src.clone(), o), Op::FillRect(0., 0., w as f32, h as f32, src.clone(), o), Op::FillRect(4., 3., 3., 2., src.clone(), o)];
+                                if !repeat && bilinear && s % sxs.len() == 0 {
+                                    draws.push(Op::DrawImageAt(4., 3., iw, ih, data.clone(), o));
+                                    draws.push(Op::DrawImageAt(1., 0., iw, ih, data.clone(), o));
+                                }
+                                for d in draws {
                                 let mut ops = pre.clone();
-                                ops.push(Op::Fill(PathSpec::rect(-60., -60., 120., 120.), src, Opts { mode: BlendMode::SrcOver, alpha, aa: true }));
+                                ops.push(d);
                                 ops.extend(suf.iter().cloned());
                                 let scene = Scene { w, h, dst: Dst::Zero, ops };
                                 l.states += 1;
@@ -273,6 +293,7 @@ impl Check for C13 {
                                         }
                                     }
                                     Err(v) => run.report(50_000 + s, v),
+                                }
                                 }
                             }
                         }
@@ -322,6 +343,52 @@ impl Check for C13 {
                                         }
                                     }
                                     Err(v) => run.report(60_000 + s, v),
+                                }
+                            }
+                        }
+                    }
+                }
+            });
+        }
+        // user units of 1/4096 and 1/65536 pixel (determinants down to 2e-10) with the source
+        // transform scaling back: only a non-invertible transform draws nothing
+        {
+            let (w, h) = (6, 5);
+            run.bound("tiny determinants", "CTM scale(1/k), k in {4096, 65536, 1000}: fill / fill_rect with an image under source scale 1/k (and an offset), draw_image_with_size_at of k-times-larger size; pad/repeat x nearest/bilinear x 2 alphas on 6x5".to_string());
+            run.par(3, |s, l| {
+                let k = [4096.0f32, 65536.0, 1000.0][s];
+                let c: Xf = [1.0 / k, 0., 0., 1.0 / k, 0., 0.];
+                let (iw, ih) = (3, 2);
+                let data = image_of(iw, ih, &DISTINCT16, 4);
+                for repeat in [false, true] {
+                    for bilinear in [false, true] {
+                        for alpha in [1.0f32, 0.5] {
+                            let o = Opts { mode: BlendMode::Src, alpha, aa: true };
+                            let mut draws = Vec::new();
+                            for sxf in [[1.0 / k, 0., 0., 1.0 / k, 0., 0.], [1.0 / k, 0., 0., 1.0 / k, -1.0, 0.5], [0.5 / k, 0., 0., 0.5 / k, 0.25, 0.25]] {
+                                let src = SrcSpec::Image { w: iw, h: ih, data: data.clone(), repeat, bilinear, xf: sxf };
+                                draws.push(Op::Fill(PathSpec::rect(-k, -k, 8.0 * k, 7.0 * k), src.clone(), o));
+                                draws.push(Op::FillRect(k, 0., 4.0 * k, 4.0 * k, src, o));
+                            }
+                            if !repeat && bilinear {
+                                draws.push(Op::DrawImageSize(3.0 * k, 2.0 * k, k, k, iw, ih, data.clone(), o));
+                                draws.push(Op::DrawImageSize(6.0 * k, 4.0 * k, 0., 0., iw, ih, data.clone(), o));
+                            }
+                            for d in draws {
+                                let scene = Scene { w, h, dst: Dst::White, ops: vec![Op::SetTransform(c), d] };
+                                l.states += 1;
+                                l.transitions += 2;
+                                l.traces += 1;
+                                l.evals += 1;
+                                match eval(&scene) {
+                                    Ok((hsh, n, interp)) => {
+                                        l.outcome(hsh);
+                                        l.count("pixels_checked", n);
+                                        if interp || n > 0 {
+                                            l.nontrivial += 1;
+                                        }
+                                    }
+                                    Err(v) => run.report(70_000 + s, v),
                                 }
                             }
                         }
